@@ -82,7 +82,15 @@ def main():
             build_lexmodel()
             if tier == "thorough":
                 checks.coqchk(ctx)
-            checks.CHECKS[prop](ctx)
+            # thorough tier of the differential properties: several rounds with different generator seeds
+            multi = tier == "thorough" and prop in ("C01", "C02", "C03", "C04", "C05", "C06", "C07", "C08", "C09",
+                                                    "C10", "C12", "C14", "C15")
+            rounds = int(os.environ.get("VERIF_ROUNDS", "4")) if multi else 1
+            for r in range(rounds):
+                ctx.seed = seed + 104729 * r
+                checks.CHECKS[prop](ctx)
+            ctx.seed = seed
+            ctx.coverage.setdefault("distribution", {})["rounds"] = rounds
     except Broken as e:
         ctx.broken(e.stage, e.detail)
     except Exception as e:       # the machinery itself failed: report as broken, never silently pass
